@@ -217,6 +217,8 @@ def stepMon (st : MState) (op : String) (out : String) : MState × List Viol :=
   | ["n", "reset", _] => ({ line := st.line, histStart := st.line }, [])
   | "n" :: rest =>
     if out.startsWith "panic" || out.startsWith "bad-op" then (st, []) else
+    if rest == ["assert-empty"] then
+      (st, if out == "empty" then [] else [("C13", s!"every query is resolved or cancelled and every peer is gone, yet state is retained: {(out.drop 9).toString.take 200}")]) else
     let (head, stateTxt) := match out.splitOn " ## " with
       | [a, b] => (a, b)
       | _ => (out, "")
